@@ -374,9 +374,16 @@ func (cs *c14Sites) of(fn *ssa.Function) map[ssa.CallInstruction]effectSite {
 	return m
 }
 
-// c14LookupRole: a must-pass role whose primitive is a pure lookup site (direct Get, or a call
-// to a function that only reads) carrying one of the given effects; the error is the verdict.
-func c14LookupRole(cs *c14Sites, name string, preds ...EffPred) checkRole {
+// c14LookupRole: a must-pass role whose primitive is a DIRECT datastore Get carrying one of the
+// given effects, with its error as the verdict. A function that merely reads is not trusted:
+// a caller's call of a lookup function counts only when that function is itself a verifier for
+// the role (verifierCache's callee summary: every success return of the callee lies on the
+// accepting side of the lookup's own verdict) and the caller enforces the callee's error.
+// A lookup run in a closure handed to a run-under-lock helper is judged at the helper call:
+// through the helper's returned error when closure and helper hand the error on, or through the
+// captured variable the closure stores the error in. The returned cache must be used for info().
+func c14LookupCache(w *World, cs *c14Sites, name string, preds ...EffPred) *verifierCache {
+	var vc *verifierCache
 	matches := func(s effectSite) bool {
 		if !s.pureLookup() {
 			return false
@@ -388,130 +395,169 @@ func c14LookupRole(cs *c14Sites, name string, preds ...EffPred) checkRole {
 		}
 		return false
 	}
-	return checkRole{Name: name, Match: func(fn *ssa.Function, ci ssa.CallInstruction) []ssa.Value {
-		viaClosure := false
+	// lookupVerdict: the error verdict of call `in` of fn when it is a lookup of the role: a direct
+	// Get, or a call of a module function that is a verifier for the role.
+	lookupVerdict := func(fn *ssa.Function, in ssa.CallInstruction) ssa.Value {
+		s, ok := cs.of(fn)[in]
+		if !ok || !matches(s) {
+			return nil
+		}
+		if s.Direct {
+			return errVerdict(in)
+		}
+		if cal := staticCallee(in.Common()); cal != nil && cal.Blocks != nil && inModule(cal) && errResultIndex(cal.Signature) >= 0 && vc.info(cal).IsVerifier {
+			return errVerdict(in)
+		}
+		return nil
+	}
+	role := checkRole{Name: name, Match: func(fn *ssa.Function, ci ssa.CallInstruction) []ssa.Value {
+		if _, callsParam := ci.Common().Value.(*ssa.Parameter); callsParam && !ci.Common().IsInvoke() {
+			return nil // `fn()` inside a run-under-lock helper: judged at the helper's call sites, with the closure
+		}
 		if call, isCall := ci.(*ssa.Call); isCall {
 			for _, cc := range c14ClosureCalls(fn) {
 				if cc.call != call {
 					continue
 				}
-				viaClosure = true
-				// the helper's error is the lookup's verdict only if the closure hands the lookup's
-				// error on (returns it or rejects on it) and the helper hands the closure's error on
+				var out []ssa.Value
 				h := staticCallee(call.Common())
-				passes := false
-				for inner, s := range cs.of(cc.closure) {
-					if matches(s) && rejectOnFailure(cc.closure, errVerdict(inner)).OK {
-						passes = true
+				for inner := range cs.of(cc.closure) {
+					ev := lookupVerdict(cc.closure, inner)
+					if ev == nil {
+						continue
 					}
-				}
-				if passes && h != nil {
-					for _, hb := range h.Blocks {
-						for _, hin := range hb.Instrs {
-							if hc, ok := hin.(*ssa.Call); ok && !hc.Common().IsInvoke() && staticCallee(hc.Common()) == nil {
-								if _, isPrm := hc.Common().Value.(*ssa.Parameter); isPrm && rejectOnFailure(h, errVerdict(hc)).OK {
-									if v := errVerdict(ci); v != nil {
-										return []ssa.Value{v}
+					// (a) through the helper's returned error
+					if rejectOnFailure(cc.closure, ev).OK && h != nil {
+						for _, hb := range h.Blocks {
+							for _, hin := range hb.Instrs {
+								if hc, ok := hin.(*ssa.Call); ok && !hc.Common().IsInvoke() && staticCallee(hc.Common()) == nil {
+									if _, isPrm := hc.Common().Value.(*ssa.Parameter); isPrm && rejectOnFailure(h, errVerdict(hc)).OK {
+										if v := errVerdict(ci); v != nil {
+											out = append(out, v)
+										}
 									}
 								}
 							}
 						}
 					}
+					// (b) through a captured variable the closure stores the error in
+					if ev.Referrers() == nil {
+						continue
+					}
+					for _, r := range *ev.Referrers() {
+						st, ok := r.(*ssa.Store)
+						if !ok || st.Val != ev {
+							continue
+						}
+						cell := c14CellAddr(st.Addr, 0)
+						if cell == nil || cell.Parent() != fn {
+							continue
+						}
+						stores, ok := c14CellStores(cell)
+						if !ok {
+							continue
+						}
+						var own []*ssa.Store
+						for _, b := range fn.Blocks {
+							for _, in := range b.Instrs {
+								if st2, isSt := in.(*ssa.Store); isSt && st2.Addr == ssa.Value(cell) {
+									own = append(own, st2)
+								}
+							}
+						}
+						clean := true
+						for _, sv := range stores {
+							if sv == ev || isNilConst(sv) {
+								continue
+							}
+							mine := false
+							for _, o := range own {
+								if o.Val == sv {
+									mine = true
+								}
+							}
+							if !mine {
+								clean = false
+							}
+						}
+						if !clean {
+							continue
+						}
+						for _, b := range fn.Blocks {
+							for _, in := range b.Instrs {
+								ld, ok := in.(*ssa.UnOp)
+								if !ok || ld.Op != token.MUL || ld.X != ssa.Value(cell) || !instrReaches(call, in) {
+									continue
+								}
+								overwritten := false
+								for _, o := range own {
+									if instrReaches(call, o) && instrReaches(o, in) {
+										overwritten = true
+									}
+								}
+								if !overwritten {
+									out = append(out, ld)
+								}
+							}
+						}
+					}
 				}
+				return out
 			}
 		}
-		if _, callsParam := ci.Common().Value.(*ssa.Parameter); callsParam && !ci.Common().IsInvoke() {
-			return nil // `fn()` inside a run-under-lock helper: judged at the helper's call sites, with the closure
-		}
-		if s, ok := cs.of(fn)[ci]; ok && matches(s) && !viaClosure {
+		// only the primitive is matched here; calls of lookup functions are summarised by the cache
+		if s, ok := cs.of(fn)[ci]; ok && s.Direct && matches(s) {
 			if v := errVerdict(ci); v != nil {
 				return []ssa.Value{v}
 			}
-			return nil
 		}
-		// the lookup runs in a closure of fn that a module helper calls (withRLock(func(){ v, err = get() })):
-		// its error reaches fn through the captured variable; the verdicts are fn's reads of that
-		// variable after the helper call
-		call, isCall := ci.(*ssa.Call)
-		if !isCall {
-			return nil
-		}
-		var out []ssa.Value
-		for _, cc := range c14ClosureCalls(fn) {
-			if cc.call != call {
+		return nil
+	}}
+	vc = newVerifierCache(w, role)
+	// a lookup whose error is only compared with a "not found" sentinel (package-level error
+	// variable) and never with nil: the side on which it differs from the sentinel is the
+	// accepting one
+	vc.Extra = func(fn *ssa.Function) []edge {
+		var out []edge
+		for in, s := range cs.of(fn) {
+			if !s.Direct || !matches(s) {
 				continue
 			}
-			for inner, s := range cs.of(cc.closure) {
-				if !matches(s) {
+			ev := errVerdict(in)
+			if ev == nil || ev.Referrers() == nil || len(edgesOfVerdict(ev).Ifs) > 0 {
+				continue
+			}
+			for _, r := range *ev.Referrers() {
+				bo, ok := r.(*ssa.BinOp)
+				if !ok || (bo.Op != token.EQL && bo.Op != token.NEQ) || bo.Referrers() == nil {
 					continue
 				}
-				ev := errVerdict(inner)
-				if ev == nil || ev.Referrers() == nil {
+				other := bo.Y
+				if bo.Y == ev {
+					other = bo.X
+				}
+				ld, ok := other.(*ssa.UnOp)
+				if !ok || ld.Op != token.MUL {
 					continue
 				}
-				for _, r := range *ev.Referrers() {
-					st, ok := r.(*ssa.Store)
-					if !ok || st.Val != ev {
-						continue
-					}
-					cell := c14CellAddr(st.Addr, 0)
-					if cell == nil {
-						continue
-					}
-					// stores made by closures must be this verdict only; stores made by fn itself may not lie
-					// between the helper call and the read that is taken as the verdict
-					stores, ok := c14CellStores(cell)
-					if !ok {
-						continue
-					}
-					var own []*ssa.Store
-					for _, b := range fn.Blocks {
-						for _, in := range b.Instrs {
-							if st2, isSt := in.(*ssa.Store); isSt && st2.Addr == ssa.Value(cell) {
-								own = append(own, st2)
-							}
-						}
-					}
-					clean := true
-					for _, sv := range stores {
-						if sv == ev || isNilConst(sv) {
-							continue
-						}
-						mine := false
-						for _, o := range own {
-							if o.Val == sv {
-								mine = true
-							}
-						}
-						if !mine {
-							clean = false
-						}
-					}
-					if !clean {
-						continue
-					}
-					for _, b := range fn.Blocks {
-						for _, in := range b.Instrs {
-							ld, ok := in.(*ssa.UnOp)
-							if !ok || ld.Op != token.MUL || ld.X != ssa.Value(cell) || !instrReaches(call, in) {
-								continue
-							}
-							overwritten := false
-							for _, o := range own {
-								if instrReaches(call, o) && instrReaches(o, in) {
-									overwritten = true
-								}
-							}
-							if !overwritten {
-								out = append(out, ld)
-							}
+				if g, isG := ld.X.(*ssa.Global); !isG || !isErrorType(g.Type().(*types.Pointer).Elem()) {
+					continue
+				}
+				for _, br := range *bo.Referrers() {
+					if ifi, ok := br.(*ssa.If); ok {
+						b := ifi.Block()
+						if bo.Op == token.EQL {
+							out = append(out, edge{b, b.Succs[1]})
+						} else {
+							out = append(out, edge{b, b.Succs[0]})
 						}
 					}
 				}
 			}
 		}
 		return out
-	}}
+	}
+	return vc
 }
 
 // c14BoxRole: secretbox.Open with (payload=true) or without a counter-derived nonce.
@@ -1346,17 +1392,17 @@ func c14D4(c *Ctx, cs *c14Sites, openO *ssa.Function, pushScope []*ssa.Function)
 	name := fnName(openO)
 	roles := []struct {
 		label string
-		role  checkRole
+		vc    *verifierCache
 		why   string
 	}{
-		{"reference-lookup", c14LookupRole(cs, "Get[hint]", eff("Get", nsHint)), "an unknown group reference is not rejected"},
-		{"group-lookup", c14LookupRole(cs, "Get[group]", eff("Get", nsGroup)), "a push for a group whose record is missing is not rejected"},
-		{"envelope-box", c14BoxRole(false), "an altered push envelope is not rejected"},
-		{"message-key-lookup", c14LookupRole(cs, "Get[byCID|precomputed]", eff("Get", nsByCID), eff("Get", nsPrecomputed)), "a message whose key is not known is not rejected"},
-		{"payload-box", c14BoxRole(true), "an altered payload is not rejected"},
+		{"reference-lookup", c14LookupCache(w, cs, "Get[hint]", eff("Get", nsHint)), "an unknown group reference is not rejected"},
+		{"group-lookup", c14LookupCache(w, cs, "Get[group]", eff("Get", nsGroup)), "a push for a group whose record is missing is not rejected"},
+		{"envelope-box", newVerifierCache(w, c14BoxRole(false)), "an altered push envelope is not rejected"},
+		{"message-key-lookup", c14LookupCache(w, cs, "Get[byCID|precomputed]", eff("Get", nsByCID), eff("Get", nsPrecomputed)), "a message whose key is not known is not rejected"},
+		{"payload-box", newVerifierCache(w, c14BoxRole(true)), "an altered payload is not rejected"},
 	}
 	for _, r := range roles {
-		vc := newVerifierCache(w, r.role)
+		vc := r.vc
 		vi := vc.info(openO)
 		if vi.IsVerifier {
 			c.ok("D4", name+"+"+r.label, openO.Pos(), "every success return passes the accepting side of the %s", r.label)
